@@ -24,7 +24,7 @@ BUDGET = {"quick": 80, "thorough": 3000}
 USES_AIOCOAP_NET = False
 RULE = ("seeded scenarios: window size 1-64, receiver initialised or uninitialised (Echo recovery), 3-12 genuine "
         "requests with consecutive numbers, gaps, jumps beyond the window and numbers near 2^8/2^16/2^24/2^32/2^40, "
-        "5-40 arrivals in random order with repeats, forgeries with valid-looking numbers (next, in-window unseen, "
+        "5-40 arrivals in random order with repeats, arrivals during which recording the window change fails, forgeries with valid-looking numbers (next, in-window unseen, "
         "just beyond the window, far ahead, equal to a genuine one) placed before, between and after the genuine "
         "arrivals, 0-2 state losses with fresh/stale/bogus Echo values; systematic part: every arrival sequence "
         "with repetition over 4 (thorough: 5) numbers (dense and window-edge sets) for window sizes 1-8. Each "
@@ -46,7 +46,8 @@ ASSUMPTIONS = ["the sender's numbers increase in creation order and a request ca
 EXPECTED_PROBES = ["own_exchange_while_uninitialized", "accepted", "duplicate_rejected", "below_window_rejected", "jump_beyond_window", "forgery_ct",
                    "forgery_piv", "forgery_rekey", "forgery_pivct", "forgery_before_genuine", "restart",
                    "echo_challenge", "echo_recovered", "stale_echo_rejected", "bogus_echo_rejected", "near_max_seqno",
-                   "in_window_unseen_accepted", "uninitialized_start", "window_size_1"]
+                   "in_window_unseen_accepted", "uninitialized_start", "window_size_1",
+                   "store_failure_during_strike_out", "store_failure_on_jump"]
 
 MAX_SEQNO = 2 ** 40 - 1
 
@@ -122,7 +123,12 @@ def gen(r, tier):
             else:
                 # recent messages are more likely, repeats are frequent
                 k = avail[-1 - min(len(avail) - 1, int(r.random() ** 2 * len(avail)))] if r.chance(0.6) else r.choice(avail)
-                ops.append(["g", k])
+                if r.chance(0.08):
+                    # recording the window change fails (persistent contexts write it to disk) while this very
+                    # request is being accepted: the request fails, whatever the window then holds must still be safe
+                    ops.append(["g", k, "cbfail"])
+                else:
+                    ops.append(["g", k])
         if phase < restarts:
             ops.append(["restart"])
     return {"ctx": ctx, "msgs": msgs, "ops": ops}
@@ -237,6 +243,7 @@ class Receiver:
         self.model_init = bool(c["initialized"])
         self.accepted = {}       # seq -> [(arrival index, incarnation)]
         self.highest = None
+        self.failed_high = None  # highest number of an authentic arrival that failed while the window was updated
         self.verdicts = {}       # arrival index -> verdict string
 
     def reset(self):
@@ -247,6 +254,7 @@ class Receiver:
         self.model_init = bool(c["initialized"])
         self.accepted = {}
         self.highest = None
+        self.failed_high = None
 
     def restart(self):
         self.cur += 1
@@ -436,7 +444,29 @@ def execute(sim, scn):
             seq = g["seq"]
             was_init = R.model_init
             fresh_echo = g["echo"] is not None and g["echo"] == R.echoes[R.cur]
+            inject_cbfail = len(op) > 2 and op[2] == "cbfail" and R.ctx.recipient_replay_window.is_initialized()
+            if inject_cbfail:
+                win = R.ctx.recipient_replay_window
+                saved_cb = win.strike_out_callback
+
+                def failing():
+                    raise OSError(28, "injected: replay window change cannot be recorded")
+                win.strike_out_callback = failing
             v, exc, result = R.arrive(g["wire"])
+            if inject_cbfail:
+                win.strike_out_callback = saved_cb
+                if v == "exc:OSError":
+                    # the request failed, which is all right; it counts as seen
+                    R.verdicts[idx] = "storefail"
+                    R.failed_high = seq if R.failed_high is None else max(R.failed_high, seq)
+                    if with_forgeries:
+                        sim.probe("store_failure_during_strike_out")
+                        sim.log("arrival", idx, "genuine", k, seq, "storefail", was_init)
+                        sig.update(b"gS")
+                        nontrivial[0] = True
+                        if R.highest is not None and seq > R.highest + W:
+                            sim.probe("store_failure_on_jump")
+                    continue
             R.verdicts[idx] = v
             if not with_forgeries:
                 continue
@@ -486,7 +516,7 @@ def execute(sim, scn):
                     sim.probe("below_window_rejected")
                     nontrivial[0] = True
                 if was_init:
-                    if R.highest is None or seq > R.highest:
+                    if (R.highest is None or seq > R.highest) and (R.failed_high is None or seq > R.failed_high):
                         sim.violation("C12/fresh-number-rejected", dict(ident, verdict=v, error=str(exc)[:100]))
                 else:
                     if g["echo"] is not None and not fresh_echo:
@@ -536,6 +566,9 @@ def execute(sim, scn):
         sim.extra_faults["forgery"] = n_forged
     if n_dup > 0:
         sim.extra_faults["duplicate_arrival"] = n_dup
+    nsf = sum(1 for v in full.verdicts.values() if v == "storefail")
+    if nsf:
+        sim.extra_faults["store_failure"] = nsf
     rs = sum(1 for op in scn["ops"] if op[0] == "restart")
     if rs:
         sim.extra_faults["state_loss"] = rs
